@@ -3,15 +3,16 @@
 . "$(dirname "$0")/env.sh"
 cd "$VERIF_ROOT/harness"
 mkdir -p "$VERIF_ROOT/.work" "$VERIF_ROOT/.cache"
-# serialise concurrent builds
-exec 9>"$VERIF_ROOT/.work/build.lock"
-flock 9
 # bin/try_seed.sh, bin/all_seeds.sh and bin/demo-mutants.sh hold this lock exclusively while a deliberate
-# change is applied to /repo: a build started by somebody else in that window waits until /repo is restored
+# change is applied to /repo: a build started by somebody else in that window waits until /repo is restored.
+# (Taken before the build lock: the runners' own builds take the build lock while holding this one.)
 if [ -z "$VERIF_REPO_LOCK_HELD" ]; then
   exec 8>"$VERIF_ROOT/.work/repo.lock"
   flock -s 8
 fi
+# serialise concurrent builds
+exec 9>"$VERIF_ROOT/.work/build.lock"
+flock 9
 python3 "$VERIF_ROOT/bin/gen_overlay.py"
 cp /repo/go.sum "$VERIF_ROOT/harness/go.sum" 2>/dev/null || true
 go build -tags verif -overlay "$VERIF_ROOT/.work/overlay.json" -o "$VERIF_ROOT/.work/resmc" ./cmd/resmc
